@@ -28,6 +28,8 @@ func c08(c *eng.Ctx, r *eng.Report) {
 		"R8.12 Stream.Kind() reports size 0 for a single byte below 0x80 as well as for the empty string/list, so wherever its size result is tested for zero the kind result of the same call is tested too on that path (`size == 0 && kind != Byte`) — otherwise a one-byte value is taken for an empty one; " +
 		"R8.13 no function of the package hands out or stores the address of an element of a slice field that the package also appends to (the pointer goes stale when the slice grows — list headers are written through such pointers); " +
 		"R8.14 what EncodeToBytes hands out is the caller's own: encbuf.toBytes returns a slice it allocated on every path, never (a re-slice of) a field of the pooled encbuf, which the next encoding overwrites; " +
+		"R8.18 a decoded byte string owns its bytes: every non-nil slice (*Stream).Bytes returns is allocated in that call (make, or a fresh literal) — never a window on the Stream's scratch buffer, which the next single-byte value overwrites and readUint zeroes, so that c3010203 decodes to [03 03 03]; " +
+		"R8.19 a tail slice is written without a list of its own: in the slice writer every piece of list framing (the encbuf.list() that opens one, a literal 0xC0) sits under the test that the field is not a tail — an empty `rlp:\"tail\"` slice otherwise adds an element (c50782aabbc0 for c40782aabb) that the decoder rejects or returns as an extra entry; " +
 		"R8.17 what a decode returns depends on its input alone: the rlp functions reachable from Decode, DecodeBytes and (*Stream).Decode keep no state between calls other than the reviewed per-type codec table — no pool of Streams, no package-level scratch (a pooled Stream that is not reset completely starts the next decode inside the list a failed one left open: a valid encoding is rejected with `rlp: end of list`); " +
 		"R8.15 readUint converts its 8-byte scratch buffer as a whole, so every byte of it is written in that call: the unused high-order bytes are zeroed before the value bytes are read (the buffer lives as long as the Stream; a narrower integer after a wider one must not inherit its high bytes); " +
 		"R8.16 a nil pointer is written as the empty form of what it points to — 0x80 for a byte array, 0xC0 for other arrays, structs and slices: makePtrWriter tests the element type of the pointed-to array (typ.Elem().Elem()), the decoder's `rlp:\"nil\"` rule accepts exactly that; " +
@@ -50,6 +52,8 @@ func c08(c *eng.Ctx, r *eng.Report) {
 	c08UintScratch(c, r)
 	c08NilPointerForm(c, r)
 	c08DecoderPure(c, r)
+	c08BytesOwnMemory(c, r)
+	c08TailHasNoHeader(c, r)
 }
 
 // payloadExempt: functions that pull bytes from the input without being the
@@ -1091,4 +1095,99 @@ func c08DecoderPure(c *eng.Ctx, r *eng.Report) {
 	if hits == 0 {
 		r.Pass(rule, "decoder:pure", "", fmt.Sprintf("%d rlp functions under the decode entry points keep nothing between calls beyond the reviewed type table", n))
 	}
+}
+
+// c08BytesOwnMemory: see R8.18.
+func c08BytesOwnMemory(c *eng.Ctx, r *eng.Report) {
+	const rule = "R8.18"
+	r.Min(rule, 1)
+	fn := c.Func(rlpPkg, "(*Stream).Bytes")
+	if !r.Anchor(fn != nil, rule, "(*Stream).Bytes") {
+		return
+	}
+	n, bad := 0, ""
+	var own func(v ssa.Value, d int) bool
+	own = func(v ssa.Value, d int) bool {
+		if d > 6 {
+			return false
+		}
+		switch x := v.(type) {
+		case *ssa.Const:
+			return true
+		case *ssa.MakeSlice:
+			return true
+		case *ssa.Slice:
+			if al, ok := x.X.(*ssa.Alloc); ok && al.Heap {
+				return true
+			}
+			return false
+		case *ssa.Phi:
+			for _, e := range x.Edges {
+				if !own(e, d+1) {
+					return false
+				}
+			}
+			return true
+		}
+		return false
+	}
+	for _, re := range eng.Returns(fn) {
+		v := re.Incoming(0)
+		if eng.IsNilConst(v) {
+			continue
+		}
+		n++
+		if !own(eng.ResolveLocal(v), 0) {
+			bad = eng.Desc(v) + " at " + c.Pos(re.Ret.Pos())
+		}
+	}
+	r.Check(bad == "" && n >= 1, rule, "Bytes:own-memory", c.Pos(fn.Pos()), fmt.Sprintf("%d non-nil results, each allocated in the call", n), "(*Stream).Bytes returns "+bad+", memory that belongs to the Stream: decodeByteSlice and decodeInterface keep the slice, so every single-byte string decoded from one input shares one byte, overwritten by the next such value and zeroed by readUint — c3010203 decodes to [03 03 03], struct{Flag []byte{5}; Count 1000} comes back with Flag={0}")
+}
+
+// c08TailHasNoHeader: see R8.19.
+func c08TailHasNoHeader(c *eng.Ctx, r *eng.Report) {
+	const rule = "R8.19"
+	r.Min(rule, 1)
+	mk := c.Func(rlpPkg, "makeSliceWriter")
+	if !r.Anchor(mk != nil, rule, "rlp.makeSliceWriter") {
+		return
+	}
+	n, bad := 0, ""
+	underNotTail := func(in ssa.Instruction) bool {
+		for _, cd := range eng.CondsAt(in) {
+			if strings.HasSuffix(eng.Desc(cd.V), ".tail") && !cd.True {
+				return true
+			}
+			if u, ok := cd.V.(*ssa.UnOp); ok && u.Op == token.NOT && strings.HasSuffix(eng.Desc(u.X), ".tail") && cd.True {
+				return true
+			}
+		}
+		return false
+	}
+	for _, fn := range mk.AnonFuncs {
+		for _, b := range fn.Blocks {
+			for _, in := range b.Instrs {
+				framing := ""
+				switch x := in.(type) {
+				case ssa.CallInstruction:
+					nm := eng.CallName(x.Common())
+					if strings.HasSuffix(nm, "encbuf).list") { // listEnd needs the head that list() returned
+						framing = nm
+					}
+				case *ssa.Store:
+					if k, ok := eng.ConstInt(x.Val); ok && k == 0xC0 {
+						framing = "the literal 0xC0"
+					}
+				}
+				if framing == "" {
+					continue
+				}
+				n++
+				if !underNotTail(in) {
+					bad = framing + " at " + c.Pos(in.Pos())
+				}
+			}
+		}
+	}
+	r.Check(bad == "" && n >= 1, rule, "slice-writer:tail-unframed", c.Pos(mk.Pos()), fmt.Sprintf("%d piece(s) of list framing, each under !tail", n), "the slice writer emits list framing ("+bad+") without having tested that the field is not a tail: a struct whose `rlp:\"tail\"` slice is empty at encode time gets an extra empty-list element — {A; B; Tail} encodes as c50782aabbc0 instead of c40782aabb, which DecodeBytes rejects for a []uint64 tail and returns with one extra element for a []RawValue tail")
 }
